@@ -276,6 +276,12 @@ def _schedules(ctx):
                 und.setdefault(cls_key, (label, sched, res['failure']))
                 continue
             f = res['final']
+            if any(isinstance(f[k], tuple) and f[k][0] == 'unevaluable'
+                   for k in ('complete', 'format_match', 'virtual_size')):
+                und.setdefault(cls_key, (label, sched, 'an observation is '
+                                         'a term the model cannot '
+                                         'evaluate'))
+                continue
             verdicts[sched] = (f['complete'], f['format_match'],
                                f['virtual_size'], f.get('safety'),
                                res.get('error') and res['error'][1])
